@@ -6,7 +6,7 @@ from __future__ import annotations
 import random
 from typing import Any, Iterator
 
-from ..core import Prop
+from ..core import Composite, Prop
 
 ATTRS = ["sa", "sb", "sc", "sd"]
 
@@ -429,7 +429,8 @@ def monitor_delivery(case: dict[str, Any], impl: dict[str, Any]) -> list[str]:
     return fails
 
 
-class C10(SigProp):
+class C10Main(SigProp):
+    kinds = ("sig",)
     id = "C10"
     quick_cases = 800
     thorough_cases = 50000
@@ -465,6 +466,117 @@ class C10(SigProp):
             if op["op"] == "dispatch" and op.get("n", 1) > 1:
                 f.add("burst")
         return sorted(f)
+
+
+class C10Churn(Prop):
+    """Subscribers coming and going while another task keeps dispatching, one scheduling round per event: dispatch never
+    raises because of a subscriber's state (subscribing, leaving, gone), and a subscriber that stays receives every event
+    exactly once, in order. Decided on the implementation only (no model: the interleaving is the scheduler's)."""
+    id = "C10"
+    kinds = ("churn",)
+
+    def generate(self, rng: random.Random, tier: str, index: int) -> dict[str, Any]:
+        return {"kind": "churn", "backend": ("asyncio", "trio")[index % 2], "n": rng.randint(15, 40),
+                "short": [{"takes": rng.randint(1, 3), "rounds": rng.randint(1, 4), "pause": rng.randint(0, 3),
+                           "wait": rng.random() < 0.3} for _ in range(rng.randint(2, 6))]}
+
+    def run_impl(self, case):
+        import anyio
+
+        from asphalt.core import Event, Signal
+
+        from ..impl import vclock
+
+        class Ev(Event):
+            def __init__(self, seq: int) -> None:
+                self.seq = seq
+
+        class Owner:
+            sig = Signal(Ev)
+
+        async def main() -> dict[str, Any]:
+            owner = Owner()
+            got: list[int] = []
+            raised: list[str] = []
+            errors: list[str] = []
+            n = case["n"]
+            ready = anyio.Event()
+
+            async def stayer() -> None:
+                async with owner.sig.stream_events(max_queue_size=10000) as stream:
+                    ready.set()
+                    async for ev in stream:
+                        got.append(ev.seq)
+                        if ev.seq == n - 1:
+                            return
+
+            async def visitor(spec: dict[str, Any]) -> None:
+                try:
+                    for _ in range(spec["rounds"]):
+                        for _ in range(spec["pause"]):
+                            await anyio.lowlevel.checkpoint()
+                        if spec["wait"]:
+                            with anyio.move_on_after(10 ** 6):
+                                await owner.sig.wait_event()
+                            continue
+                        async with owner.sig.stream_events() as stream:
+                            for _ in range(spec["takes"]):
+                                with anyio.move_on_after(10 ** 6):
+                                    await stream.__anext__()
+                except Exception as e:  # noqa: BLE001
+                    errors.append(f"a subscriber's own stream raised {type(e).__name__}: {e}")
+
+            async with anyio.create_task_group() as tg:
+                tg.start_soon(stayer)
+                await ready.wait()
+                for spec in case["short"]:
+                    tg.start_soon(visitor, spec)
+                for i in range(n):
+                    try:
+                        owner.sig.dispatch(Ev(i))
+                    except BaseException as e:  # noqa: BLE001
+                        raised.append(f"dispatch of event {i} raised {type(e).__name__}")
+                    await anyio.lowlevel.checkpoint()
+                await anyio.sleep(1)
+                tg.cancel_scope.cancel()
+            return {"got": got, "raised": raised, "errors": errors}
+
+        return vclock.run(main, backend=case["backend"])
+
+    def model_request(self, case, impl):
+        return None
+
+    def compare(self, case, impl, model):
+        return None
+
+    def monitor(self, case, impl):
+        fails = list(impl["raised"][:3]) + list(impl["errors"][:3])
+        if impl["got"] != list(range(case["n"])):
+            fails.append(f"a subscriber that stayed for all {case['n']} events received {impl['got'][:50]}")
+        return ["[C10] " + f for f in fails]
+
+    def nontrivial(self, case, impl):
+        return len(case["short"]) >= 3
+
+    def features(self, case, impl):
+        return ["churn", "backend_" + case["backend"]]
+
+    def shrink(self, case):
+        for i in range(len(case["short"])):
+            yield {**case, "short": case["short"][:i] + case["short"][i + 1:]}
+        if case["n"] > 5:
+            yield {**case, "n": case["n"] // 2}
+
+
+class C10(Composite):
+    id = "C10"
+    quick_cases = C10Main.quick_cases
+    thorough_cases = C10Main.thorough_cases
+    parts = [(15, C10Main()), (1, C10Churn())]
+    rule = C10Main.rule + ("; one case in sixteen is a churn run: 2-6 short-lived subscribers (stream_events taking 1-3 "
+                           "events, wait_event) come and go for several rounds while another task dispatches 15-40 events, "
+                           "one scheduling round apart; a subscriber that stays must get them all, dispatch must never raise")
+    assumptions = C10Main.assumptions
 
 
 PROP = C10()
